@@ -9,6 +9,7 @@ the re-run write the same objects), not by a theorem.
 -/
 import WrglModel.Model.Crash
 import WrglModel.Lemmas.C13
+import WrglModel.Lemmas.C13Recv
 import WrglModel.Gen.Facts
 namespace Wrgl
 
@@ -51,6 +52,26 @@ theorem C13_receive_prefix_consistent (u : Universe) (heads : List Nat) (s : RSt
     ∀ n, Consistent u heads (s.applyAll ((receiveTableWrites Facts.writeOrderIndexTable Facts.writeOrderReceiveTable t idxs).take n)) := by
   rw [C13_fact_indexTable, C13_fact_receiveTable]
   exact receive_table_writes_safe u heads s t blocks idxs hc ht hb
+
+/-- Receive (fetch / pull / push receiver), commits: for ANY object stream - whatever order the sender
+    chose, parent-first or not, e.g. a history whose commit times disagree with its topology, sorted
+    by time - and any crash point or refusal, every stored commit has all its parents: the receiver
+    looks the parents up before it writes the commit (Model/Transfer.lean `receiveObj`), so the
+    clause does not rest on the sender. -/
+theorem C13_receive_any_order_parents (s : SrcRepo) (d : DstRepo) (os : List ObjKey) (h : ParentClosed d) :
+    ∀ n, ParentClosed (receiveUpTo s d (os.take n)) :=
+  fun n => C13Recv.receiveUpTo_parentClosed s (os.take n) d h
+
+/-- ... and the look-up carries it: without it, a child sent before its parent (a child made on a
+    machine whose clock is behind, in a stream ordered by time) is stored, and a crash before the
+    parent's write leaves a commit whose parent is missing. -/
+theorem C13_unchecked_receive_unsafe :
+    let s : SrcRepo := { commits := [{ id := 1, time := 3, parents := [] }, { id := 2, time := 1, parents := [1] }], tables := [] }
+    ¬ ParentClosed (receiveUpToUnchecked s { blocks := [], tables := [], commits := [] } ([ObjKey.com 2, ObjKey.com 1].take 1)) := by
+  intro s h
+  have := h 2 { id := 2, time := 1, parents := [1] } (by decide) 1 (by simp)
+  revert this
+  decide
 
 /-- The order before the repair (table object first) is NOT safe: the witness that the extracted
     order carries the theorem. -/
